@@ -460,4 +460,8 @@ def postprocess(agg, tier):
     extra["shared_cells_observed_to_change"] = sorted(shared)[:80]
     extra["n_shared_cells_observed_to_change"] = len(shared)
     extra["traces_validated_against_impl"] = agg["transitions"]
+    capped = sorted(k.split(":", 1)[1] for k, v in agg["counters"].items() if k.startswith("family_closed:") and v == 0)
+    extra["capped"] = bool(capped)
+    extra["families_not_closed_at_depth_cap"] = capped
+    extra["families_closed"] = sorted(k.split(":", 1)[1] for k, v in agg["counters"].items() if k.startswith("family_closed:") and v == 1)
     return extra
